@@ -783,6 +783,7 @@ func AllProgs() []Prog {
 	ps = append(ps, CollectionProgs()...)
 	ps = append(ps, StringProgs()...)
 	ps = append(ps, CombinatorProgs()...)
+	ps = append(ps, NestedProgs()...)
 	ps = append(ps, MachineProgs()...)
 	return ps
 }
